@@ -224,3 +224,76 @@ Example C13_nonvacuous_literal :
   occurs_atb true [97; 35; 98]%N [65; 3; 98; 32; 65; 35; 66; 10]%N 0 = false /\
   ref_find true [196; 177; 120]%N None false [196; 145; 120; 32; 196; 177; 120; 10]%N = Some (4, 7).
 Proof. split; [eexists; split; [reflexivity|repeat split]|vm_compute; repeat split; reflexivity]. Qed.
+
+(* ---------------------------------------------------------------------------------------------- *)
+(* the delimiter parser of the prompt (rset.c re_read) on patterns that end in backslashes (round g/h; proofs in
+   coq/Search3Props.v, vocabulary in coq/SubstArgDefs.v).  units d u: u is a sequence of units -- a byte that is neither
+   the delimiter d nor a backslash, or a backslash TOGETHER WITH the byte after it; unesc d u: the same text with
+   \<delimiter> reduced to the delimiter, everything else (also \\) copied. *)
+From NV Require SubstDefs SubstArgDefs Search3Props.
+
+(* the search prompt and :s read their patterns with one and the same function *)
+Theorem C13_re_read_same : forall d s, re_read d s = SubstDefs.re_read_loop d s.
+Proof. exact Search3Props.re_read_same. Qed.
+Print Assumptions C13_re_read_same.
+
+(* units, then the delimiter: the pattern is the unescaped units, the rest is what follows that delimiter *)
+Theorem C13_re_read_units : forall d u rest, d <> 92%N -> SubstArgDefs.units d u ->
+  re_read d (u ++ d :: rest) = (SubstArgDefs.unesc d u, rest).
+Proof. exact Search3Props.re_read_units. Qed.
+Print Assumptions C13_re_read_units.
+
+(* an EVEN run of backslashes before the typed closing delimiter: they are escaped backslashes, the delimiter closes,
+   the pattern ends in the run; /a\\/ looks for a\\ (the two characters a\), /a\\/1 has the line offset 1 *)
+Theorem C13_even_backslashes_then_delimiter : forall d u k rest, d <> 92%N -> SubstArgDefs.units d u ->
+  re_read d (u ++ SubstArgDefs.bs (2 * k) ++ d :: rest) = (SubstArgDefs.unesc d u ++ SubstArgDefs.bs (2 * k), rest).
+Proof. exact Search3Props.re_read_even_run. Qed.
+Print Assumptions C13_even_backslashes_then_delimiter.
+
+(* an ODD run: the last backslash escapes the delimiter, which becomes a character of the pattern (without its
+   backslash), and the pattern goes on behind it *)
+Theorem C13_odd_backslashes_then_delimiter : forall d u k rest, d <> 92%N -> SubstArgDefs.units d u ->
+  re_read d (u ++ SubstArgDefs.bs (2 * k + 1) ++ d :: rest) =
+  (SubstArgDefs.unesc d u ++ SubstArgDefs.bs (2 * k) ++ d :: fst (re_read d rest), snd (re_read d rest)).
+Proof. exact Search3Props.re_read_odd_run. Qed.
+Print Assumptions C13_odd_backslashes_then_delimiter.
+
+(* the remembered line offset comes from the text after the closing delimiter and only from there *)
+Theorem C13_offset_after_closing_delimiter : forall d u rest, d <> 92%N -> SubstArgDefs.units d u ->
+  prompt_off d (u ++ d :: rest) =
+  (match skip_spaces rest with [] => false | _ => true end, c_atoi (skip_spaces rest)).
+Proof. exact Search3Props.prompt_off_units. Qed.
+Print Assumptions C13_offset_after_closing_delimiter.
+Theorem C13_no_offset_without_closing_delimiter : forall d u, d <> 92%N -> SubstArgDefs.units d u ->
+  prompt_off d u = (false, 0%Z) /\ prompt_off d (u ++ [92%N]) = (false, 0%Z).
+Proof. exact Search3Props.prompt_off_open. Qed.
+Print Assumptions C13_no_offset_without_closing_delimiter.
+
+(* what the prompt leaves in the search state *)
+Theorem C13_prompt_state : forall st d u rest, d <> 92%N -> SubstArgDefs.units d u -> SubstArgDefs.unesc d u <> [] ->
+  length (SubstArgDefs.unesc d u) < Z.to_nat GenConsts.EXLEN ->
+  let st' := prompt_search st d (u ++ d :: rest) in
+  kwd st' = SubstArgDefs.unesc d u /\ kdir st' = (if (d =? 47)%N then 1%Z else (-1)%Z) /\
+  off_of st' = (match skip_spaces rest with [] => false | _ => true end, c_atoi (skip_spaces rest)).
+Proof. exact Search3Props.prompt_search_units. Qed.
+Print Assumptions C13_prompt_state.
+
+(* non-vacuity, through the reference matcher:  /a\\/  from the top of  start | a/ b | a\ b | end  lands on line 3
+   (the a\), not on the a/ of line 2;  ?a\\?  from the last line of  start | a\ b | a? b | end  lands on line 2;
+   /a\\/1  on  start | a/1 b | a\ b | next | end  lands on "next" with the offset 1 remembered;  /a\\/  finds nothing in
+   start | a/ b | end  and the cursor stays;  /a\\\/  (odd run) looks for  a\/  = the three characters a \ / *)
+Example C13_nonvacuous_backslashes :
+  let a_sl := [97;47;32;98;10]%N in let a_bs := [97;92;32;98;10]%N in
+  let start := [115;116;97;114;116;10]%N in let fin := [101;110;100;10]%N in
+  map (fun x => (off_of (fst (fst x)), snd (fst x), snd x))
+      (ref_trace true sstate0 [start; a_sl; a_bs; fin] [(CSlash [97;92;92;47]%N, 1)] 0 0) = [(false, 0%Z, true, (2, 0))] /\
+  map (fun x => (off_of (fst (fst x)), snd (fst x), snd x))
+      (ref_trace true sstate0 [start; a_bs; [97;63;32;98;10]%N; fin] [(CQuest [97;92;92;63]%N, 1)] 3 0) = [(false, 0%Z, true, (1, 0))] /\
+  map (fun x => (off_of (fst (fst x)), snd (fst x), snd x))
+      (ref_trace true sstate0 [start; [97;47;49;32;98;10]%N; a_bs; [110;101;120;116;10]%N; fin] [(CSlash [97;92;92;47;49]%N, 1)] 0 0)
+    = [(true, 1%Z, true, (3, 0))] /\
+  map (fun x => (off_of (fst (fst x)), snd (fst x), snd x))
+      (ref_trace true sstate0 [start; a_sl; fin] [(CSlash [97;92;92;47]%N, 1)] 0 0) = [(false, 0%Z, false, (0, 0))] /\
+  re_read 47%N [97;92;92;92;47]%N = ([97;92;92;47]%N, []) /\
+  SubstArgDefs.units 47%N [97;92;92]%N.
+Proof. vm_compute. repeat split; try reflexivity. apply SubstArgDefs.U_chr; [discriminate|discriminate|]. apply SubstArgDefs.U_esc. apply SubstArgDefs.U_nil. Qed.
